@@ -2,23 +2,23 @@ SPECIFICATION Spec
 CONSTANTS
   Nodes = {1, 2}
   Slots = {"A", "B"}
-  Keys = {"a1", "a2", "b1"}
-  SlotOf <- MCSlotOf
-  MaxCmds = 3
+  Keys = {"a1", "b1"}
+  SlotOf <- MCSlotOf2
+  MaxCmds = 4
   MaxHops = 3
   WithMigration = TRUE
   EmptyTableAtStart = FALSE
-  AtomicAsk = FALSE
+  AtomicAsk = TRUE
   WithFailover = FALSE
   FixRefreshOnDialError = TRUE
   StepwiseRefresh = FALSE
   ClearBeforeFill = FALSE
   MaxTicks = 0
-  LazyConnect = FALSE
+  LazyConnect = TRUE
   AsyncRedirectDial = FALSE
-  TrackOrder = FALSE
+  TrackOrder = TRUE
   WithDemotion = FALSE
   ReadonlyEverywhere = TRUE
-INVARIANTS EqualsReference EffectOnce SingleCopy CopyIsReference NoLostKey FirstHopIsOwner
+INVARIANTS EqualsReference EffectOnce SingleCopy CopyIsReference NoLostKey RedirectKeepsOrder
 CONSTRAINT HopBound
 CHECK_DEADLOCK FALSE
